@@ -3082,7 +3082,8 @@ class Ac_Implied_Do(Base):
             # No "=" or it is "==" so no match.
             return None
         j = line[:i].rfind(",")
-        assert j != -1
+        if j == -1:
+            return None
         s1 = repmap(line[:j].rstrip())
         s2 = repmap(line[j + 1 :].lstrip())
         return Ac_Value_List(s1), Ac_Implied_Do_Control(s2)
